@@ -11,6 +11,7 @@ from . import carving_space, disc_space
 PROP = "C04"
 BIG_SCALE = [1.0, 202300.0]  # boundaries that differ only beyond 4 significant digits
 BIG_SCALE2 = [0.1, 1.7e9]  # ... beyond 10 significant digits (timestamps a tenth of a second apart)
+THIRDS = [1.0 / 3.0, 0.0]  # boundaries with 16 significant decimals (0.333..., 0.666...)
 
 
 def fitted_object(case):
@@ -21,13 +22,34 @@ def fitted_object(case):
     return fit, fit.get("carver") if fit["status"] == "ok" else None
 
 
-def check_object(obj, X, tag, viol):
+def same_values(a, b):
+    return len(a) == len(b) and all(((u != u) and (v != v)) or u == v for u, v in zip(a, b))
+
+
+def check_object(obj, X, tag, viol, expect=None):
+    """expect: outputs {feature: list} of another object that must implement the same mapping (original vs reloaded)"""
     n_groups = 0
     try:
         out = obj.transform(X.copy())
     except Exception as exc:  # noqa
         viol.append({"kind": f"{tag}transform-raises", "what": f"{tag}transform(X_train) raised {type(exc).__name__}: {str(exc)[:100]}"})
         return 0
+    # the same rows under a non-default index (labels are attached by position in the frame, not by index label)
+    try:
+        Xr = X.copy()
+        Xr.index = list(range(len(X) + 6, 6, -1))
+        outr = obj.transform(Xr)
+        for f in obj.features:
+            if not same_values(outr[f].tolist(), out[f].tolist()):
+                viol.append({"kind": f"{tag}index-dependent", "what": f"{tag}{f}: transform of the training rows changes when the frame carries the index {list(Xr.index)[:3]}..."})
+                break
+    except Exception as exc:  # noqa
+        viol.append({"kind": f"{tag}transform-raises", "what": f"{tag}transform of the re-indexed training frame raised {type(exc).__name__}: {str(exc)[:100]}"})
+    if expect is not None:
+        for f in obj.features:
+            if f in expect and not same_values(out[f].tolist(), expect[f]):
+                viol.append({"kind": f"{tag}differs-from-original", "what": f"{tag}{f}: the rebuilt object labels the training rows differently from the fitted object"})
+                break
     for f in obj.features:
         raw = next((r for r, lst in obj.features_casting.items() if f in lst), f)
         ref = RefTransform(obj.values_orders[f], f in obj.quantitative_features, obj.str_nan)
@@ -64,7 +86,8 @@ def run_case(case):
 
             blob = json.loads(json.dumps(obj.to_json()))
             obj2 = load_carver(blob)
-            check_object(obj2, X, "reloaded:", viol)
+            orig = obj.transform(X.copy())
+            check_object(obj2, X, "reloaded:", viol, expect={f: orig[f].tolist() for f in obj.features})
             tags.append("json")
         except Exception as exc:  # noqa  (C06 judges the round trip itself)
             tags.append("json-fails(C06)")
@@ -125,7 +148,7 @@ def enumerate_cases(tier, seed):
                         for dropna in (True, False):
                             if nan is None and not dropna:
                                 continue
-                            for scale in ([None, BIG_SCALE] if kind == "QNT" else [None]):
+                            for scale in ([None, BIG_SCALE, THIRDS] if kind == "QNT" else [None]):
                                 cfg = {"sort_by": "tschuprowt", "max_n_mod": 3, "min_freq": 0.1, "min_freq_mod": None, "output_dtype": od, "dropna": dropna}
                                 c = {"type": "carver", "carver": carver, "kind": kind, "cells": [list(x) for x in cells], "nan": list(nan) if nan else None, "dev": None, "cfg": cfg, "seed": seed}
                                 if scale:
@@ -141,6 +164,16 @@ def enumerate_cases(tier, seed):
                 for od in ("float", "str"):
                     cfg = {"sort_by": "tschuprowt", "max_n_mod": 4, "min_freq": 0.05, "min_freq_mod": None, "output_dtype": od, "dropna": True}
                     cases.append({"type": "carver", "carver": carver, "kind": "ORD", "cells": [list(x) for x in cells], "nan": None, "dev": None, "cfg": cfg, "seed": seed, "values": values})
+    # categorical features for which the user also provides the vocabulary in values_orders (alphabetical, unrelated to rates)
+    for carver in ("binary", "continuous"):
+        tabs, tr = carving_space.tables(carver, "ORD", tier, kmax=4 if tier != "quick" else 3)
+        for cells in tabs[:: 1 if tier != "quick" else 2]:
+            for od in ("float", "str"):
+                cfg = {"sort_by": "tschuprowt", "max_n_mod": 4, "min_freq": 0.05, "min_freq_mod": None, "output_dtype": od, "dropna": True}
+                cases.append({"type": "carver", "carver": carver, "kind": "CAT", "cells": [list(x) for x in cells], "nan": None, "dev": None, "cfg": cfg, "seed": seed, "vocabulary": True})
+    for cells in carving_space.tables("binary", "ORD", tier, kmax=3)[0]:
+        for cls in ("Discretizer", "QualitativeDiscretizer"):
+            cases.append({"type": "disc", "cls": cls, "kind": "CAT", "cells": [list(c) for c in cells], "nan": None, "min_freq": 0.05, "target": "binary", "seed": seed, "companion": None, "vocabulary": True})
     # MulticlassCarver (per-class columns f_<class>)
     for kind in ("ORD", "QNT", "CAT"):
         tabs, tr = carving_space.tables("multiclass", kind, tier, kmax=3)
